@@ -71,9 +71,38 @@ pub proof fn lemma_filter_none_append<A>(s: Seq<A>, e: Seq<A>, p: spec_fn(A) -> 
         lemma_filter_push(s + e.drop_last(), e.last(), p);
     }
 }
-/// filtering by p first does not change a filter by a stronger q
+/// filter distributes over concatenation
+pub proof fn lemma_filter_append<A>(s: Seq<A>, e: Seq<A>, p: spec_fn(A) -> bool)
+    ensures (s + e).filter(p) == s.filter(p) + e.filter(p)
+    decreases e.len()
+{
+    if e.len() == 0 {
+        lemma_filter_empty(p);
+        assert(e == Seq::<A>::empty());
+        assert(s + e == s);
+        assert(s.filter(p) + Seq::<A>::empty() == s.filter(p));
+    } else {
+        lemma_filter_append(s, e.drop_last(), p);
+        assert(s + e == (s + e.drop_last()).push(e.last()));
+        assert(e == e.drop_last().push(e.last()));
+        lemma_filter_push(s + e.drop_last(), e.last(), p);
+        lemma_filter_push(e.drop_last(), e.last(), p);
+        if p(e.last()) {
+            assert((s.filter(p) + e.drop_last().filter(p)).push(e.last()) == s.filter(p) + e.drop_last().filter(p).push(e.last()));
+        }
+    }
+}
+/// a prefix has no more elements satisfying p than the whole sequence
+pub proof fn lemma_filter_prefix_len<A>(s: Seq<A>, k: int, p: spec_fn(A) -> bool)
+    requires 0 <= k <= s.len()
+    ensures s.take(k).filter(p).len() <= s.filter(p).len()
+{
+    lemma_filter_append(s.take(k), s.skip(k), p);
+    assert(s.take(k) + s.skip(k) == s);
+}
+/// filtering by p first does not change a filter by q when every element of s that satisfies q satisfies p
 pub proof fn lemma_filter_filter<A>(s: Seq<A>, p: spec_fn(A) -> bool, q: spec_fn(A) -> bool)
-    requires forall|x: A| #[trigger] q(x) ==> p(x)
+    requires forall|i: int| 0 <= i < s.len() ==> (q(#[trigger] s[i]) ==> p(s[i]))
     ensures s.filter(p).filter(q) == s.filter(q)
     decreases s.len()
 {
@@ -81,10 +110,14 @@ pub proof fn lemma_filter_filter<A>(s: Seq<A>, p: spec_fn(A) -> bool, q: spec_fn
         lemma_filter_empty(p);
         assert(s == Seq::<A>::empty());
     } else {
+        assert forall|i: int| 0 <= i < s.drop_last().len() implies (q(#[trigger] s.drop_last()[i]) ==> p(s.drop_last()[i])) by {
+            assert(s.drop_last()[i] == s[i]);
+        }
         lemma_filter_filter(s.drop_last(), p, q);
         assert(s == s.drop_last().push(s.last()));
         lemma_filter_push(s.drop_last(), s.last(), p);
         lemma_filter_push(s.drop_last(), s.last(), q);
+        assert(s.last() == s[s.len() - 1]);
         if p(s.last()) {
             lemma_filter_push(s.drop_last().filter(p), s.last(), q);
         }
